@@ -105,6 +105,8 @@ def run(c, prog):
     C14_rest.run(c, prog)
     C14_arm.run(c, prog)
     rule_narrow(c, prog)
+    from . import C17_domain
+    C17_domain.run(core.Alias(c, "C14"), prog, which=("font",))     # `fonts with and without cached face`: None and Some("") share one spelling
     from . import C01_rot
     C01_rot.run(core.Alias(c, "C14"), prog)     # the CFrame attribute shares the 24 rotation ids
     from . import C13 as _C13
